@@ -3713,6 +3713,17 @@ def must_refuse(ctx, w, key, where, what, atom_pred, term_pred, assume=True, ref
             pass
     if any(term_pred(t) for t in texts):
         raise Undecided("%s: the value is used, in a form this rule does not read" % what)
+    # a local that survived substitution (a loop-carried variable, a value threaded through a loop) may hold the value
+    fn_node = getattr(w, "node", None)
+    if fn_node is not None and isinstance(fn_node, (ast.FunctionDef, ast.AsyncFunctionDef)):
+        stored = {n.id for n in ast.walk(fn_node) if isinstance(n, ast.Name) and isinstance(n.ctx, ast.Store)}
+        for a in all_atoms(w):
+            try:
+                names = {n.id for n in ast.walk(ast.parse(a.replace("truthy(", "bool("), mode="eval")) if isinstance(n, ast.Name)}
+            except SyntaxError:
+                names = set()
+            if names & stored:
+                raise Undecided("%s: a test of the function is about `%s`, a local carried through a loop; this rule reads tests over the function's inputs" % (what, sorted(names & stored)[0]))
     ctx.bad(key, where, "%s: the value that would show it is never looked at (no test, call or result of the function mentions it)" % what)
     return False
 
